@@ -170,19 +170,26 @@ def build_registry(op):
     else:
         reg = ur.UnitRegistry()
     for e in op.get("edits", []):
-        try:
-            if e["k"] == "add":
-                reg.add(e["sym"], e["scale"], rw._dims(e["dims"]), offset=e.get("offset"), prefixable=e.get("prefixable", False))
-            elif e["k"] == "modify":
-                reg.modify(e["sym"], e["value"])
-            elif e["k"] == "remove":
-                reg.remove(e["sym"])
-            elif e["k"] == "define":
-                uo.define_unit(e["sym"], (e["v"], e["s"]), registry=reg, prefixable=e.get("prefixable", False))
-        except Exception as ex:  # an edit that is refused is simply not part of the contents
-            if rw.harness_frame(ex.__traceback__):
-                raise
+        apply_edit(reg, e)
     return reg
+
+
+def apply_edit(reg, e):
+    unyt, uo, ur = _m()
+    try:
+        if e["k"] == "add":
+            reg.add(e["sym"], e["scale"], rw._dims(e["dims"]), offset=e.get("offset"), prefixable=e.get("prefixable", False))
+        elif e["k"] == "modify":
+            reg.modify(e["sym"], e["value"])
+        elif e["k"] == "remove":
+            reg.remove(e["sym"])
+        elif e["k"] == "define":
+            uo.define_unit(e["sym"], (e["v"], e["s"]), registry=reg, prefixable=e.get("prefixable", False))
+    except Exception as ex:  # an edit that is refused is simply not part of the contents
+        if rw.harness_frame(ex.__traceback__):
+            raise
+        return False
+    return True
 
 
 def build_object(op, reg):
@@ -392,6 +399,15 @@ def run_follow(fop, me, other):
 # -------------------------------------------------------------- generator
 
 
+LATE_ROUTES = ("pickle", "pickle_nested", "deepcopy", "deepcopy_nested", "copy", "method_copy", "unitcopy", "unitcopy_deep")
+
+
+def rw_tokens(s):
+    import re
+
+    return sorted(set(re.findall(r"[^\W\d]\w*", s.replace("sqrt", " "), re.UNICODE)))
+
+
 def gen_registry(r):
     if r.random() < 0.35:
         return {"route": "default"}
@@ -470,6 +486,18 @@ def gen_run(r, cfg):
         rt["chaos"] = "restart"
     if rt["chaos"] == "fresh_process" and r.random() < cfg.get("p_newint", 0.0):
         rt["chaos"] = "new_interpreter"  # exec of a real new interpreter instead of a pristine fork (~1 s)
+    late = None
+    if custom and r.random() < cfg.get("p_late", 0.0) and route in LATE_ROUTES:
+        # the registry is edited AFTER the object was created: the object keeps the value it had (C12), and a
+        # copy / pickle of it must come back with that value, not with the table's new one
+        toks = [t for t in rw_tokens(unit) if t not in ("sqrt",)]
+        if toks:
+            t = r.choice(toks)
+            base = t
+            for sym in CUSTOM_SYMS:
+                if t.endswith(sym):
+                    base = sym
+            late = {"k": "late_edit", "edit": {"k": "modify", "sym": base, "value": r.choice([7.0, 0.125, 42.0])}}
     follows = []
     for _ in range(cfg["n_follow"]):
         f = r.choice(cfg["follow"])
@@ -484,7 +512,7 @@ def gen_run(r, cfg):
         if f == "unit_pow":
             fop["p"] = r.choice([2, -1, 0.5, 3])
         follows.append(fop)
-    return [{"k": "reg", **regop}, build, rt] + follows
+    return [{"k": "reg", **regop}, build] + ([late] if late else []) + [rt] + follows
 
 
 def make_config(rng):
@@ -495,6 +523,7 @@ def make_config(rng):
         "follow": sorted(set(r.sample(FOLLOW, r.randrange(6, 20)))),
         "n_follow": r.choice([2, 4, 6, 10]),
         "lru": r.choice([128, 128, 128, 2, 0, 8]),
+        "p_late": r.choice([0.0, 0.15, 0.4]),
         "p_newint": 0.3 if os.environ.get("UNYTSIM_TIER") == "thorough" else 0.04,
     }
 
@@ -613,6 +642,9 @@ class Sim11:
             self.log.add({"build_refused": type(e).__name__})
             return
         self.count("build:" + build["kind"])
+        late = next((o for o in ops if o["k"] == "late_edit"), None)
+        if late is not None and custom and apply_edit(reg, late["edit"]):
+            self.fault("registry_edited_after_object_creation")
         self.step_no = 2
         route = rt["route"]
         chaos = rt.get("chaos", "none")
